@@ -8,11 +8,12 @@ ID = "C10"
 PROP_FILE = "Props/C10.v"
 THEOREMS = ["C10_paused_only_when_resumable", "C10_failed_pause_at_top_of_loop", "C10_failed_pause_runs_cleanup",
             "C10_failed_pause_exit_aborts", "C10_finalize_closes_open_runs", "C10_suspend_request_without_checkpoint_aborts",
-            "C10_end_to_end", "C10_any_requests", "C10_full_refuted"]
+            "C10_end_to_end", "C10_any_requests", "C10_full_refuted", "C10_pause_message_without_checkpoint_keeps_task"]
 impl_batch = cc.impl_batch
 coq_term = cc.coq_term
 RULE = ec.RULE + ("; plus C10 extras: clear_checkpoint at every position of plans with cleanup (try/finally, nested runs, staged and moved "
-                  "devices), a pause / pause message / suspension at every later `_run` step")
+                  "devices; a pause message inside try/finally with a three-message clean-up), a pause / pause message / suspension at every "
+                  "later `_run` step")
 
 
 def cases(rng, tier):
@@ -62,6 +63,13 @@ def oracle(case, obs):
                 return "%s while no checkpoint was in effect, yet the engine paused" % armed
             if k == "plan_in" and e[1] < 1000 and e[2][0] in ("throw", "close"):
                 thrown.append(e[2][1] if e[2][0] == "throw" else "close")
+                # C10-a: the plan was handed FailedPause because of its own pause message; its clean-up must not be hit by
+                # an interruption exception that no abort/stop/halt request accounts for (a left-over self-cancellation
+                # of the task used to arrive as RequestAbort at the first clean-up message)
+                if (armed == "pause message" and not terminal and len(thrown) > 1 and thrown[0] == "FailedPause"
+                        and thrown[-1] in ("RequestAbort", "RequestStop", "PlanHalt")):
+                    return ("pause message while no checkpoint was in effect: after FailedPause, %s was thrown into the plan although "
+                            "no abort/stop/halt was requested -- clean-up interrupted by an exception nobody requested" % thrown[-1])
             if k == "out":
                 if e[2] == "return" and e[1] in ("call", "resume"):
                     return "%s while no checkpoint was in effect, yet the call returned normally" % armed
